@@ -4,8 +4,9 @@ tier=${1:-quick}
 cd "$(dirname "$0")/.."
 for p in $(python3 -c "import json;print(' '.join(c['property_id'] for c in json.load(open('MANIFEST.json'))['checks']))"); do
   s=$(date +%s)
-  out=$(./check $p --tier $tier 2>&1 | grep -v '^WARNING')
+  ./check $p --tier $tier > /tmp/vrunall.$$.out 2>&1
   rc=$?
+  out=$(grep -v '^WARNING' /tmp/vrunall.$$.out); rm -f /tmp/vrunall.$$.out
   e=$(date +%s)
   echo "$out" | grep -E "^(C[0-9]+ |VIOLATION|KNOWN|BUILD|note)" | cut -c1-220 | head -4
   echo "   -> $p exit=$rc wall=$((e-s))s"
